@@ -5,6 +5,7 @@
 package larking
 
 import (
+	"bytes"
 	"encoding/binary"
 	"fmt"
 	"io"
@@ -218,6 +219,12 @@ func (c CodecJSON) ReadNext(b []byte, r io.Reader, limit int) ([]byte, int, erro
 			if err != nil && (n == 0 || err != io.EOF) {
 				// Bytes that arrive together with io.EOF are processed
 				// first; the reader reports io.EOF again on the next read.
+				if err == io.EOF && braceCount == 0 && len(bytes.TrimLeft(b, " \t\r\n")) == 0 {
+					// Only whitespace after the last message (newline
+					// delimited JSON ends every line with its newline):
+					// a clean end of the stream, nothing is left over.
+					return b[:0], 0, io.EOF
+				}
 				return b, 0, err
 			}
 		}
